@@ -51,7 +51,8 @@ MCDocs == {
 (* loader / wedge-list laws on a small scope: every choice of 1..2 tomograms with 1..3 tilts from a pool *)
 TiltPool == { <<-5200, -100, 4850>>, <<300, -300>>, <<0>>, <<1225, 1200, -6000>> }
 Tomo(id, tl, withCtf, withDose, dim, zs) ==
-    [id |-> id, tilts |-> tl, mean2 |-> IF withCtf THEN [i \in DOMAIN tl |-> 35000 + 7 * i + id] ELSE <<>>,
+    [id |-> id, tilts |-> tl,
+     ctf |-> IF withCtf THEN [i \in DOMAIN tl |-> [u |-> 350000 + 7 * i, v |-> 340000 + id, ang |-> 2126, ps |-> 0]] ELSE <<>>,
      dose |-> IF withDose THEN [i \in DOMAIN tl |-> 30 * i + id] ELSE <<>>, dim |-> dim, zshift |-> zs]
 Consts == [px |-> 2400, voltage |-> 300, amp |-> 7, cs |-> 27]
 TomoLists == { << Tomo(17, a, c, dz, <<4096, 4096, 1500>>, 0) >> : a \in TiltPool, c \in BOOLEAN, dz \in BOOLEAN }
